@@ -46,10 +46,21 @@ class Obs:
         return (self.text, tuple(tuple(r) for r in self.texts))
 
 
+class ObsError(Exception):
+    """the library raised while a monitor observed a value through the public queries"""
+
+    def __init__(self, exc):
+        Exception.__init__(self, repr(exc))
+        self.exc = exc
+
+
 def observe(v):
     """v: AnsiString or AnsiStr (anything with base_str / ansi_settings_at)."""
-    text = v.base_str
-    objs = [v.ansi_settings_at(i) for i in range(len(text))]
+    try:
+        text = v.base_str
+        objs = [v.ansi_settings_at(i) for i in range(len(text))]
+    except Exception as e:
+        raise ObsError(e)
     return Obs(text, objs, type(v).__name__)
 
 
